@@ -89,3 +89,25 @@ func VerifPoolDrain(n int) int {
 	}
 	return max
 }
+
+// VerifBufferPooled reports whether the pooled state whose buffer b points
+// into is resting in the pool right now (looked for among the next n states
+// the pool hands out; every state taken is put back once).
+func VerifBufferPooled(b []byte, n int) bool {
+	if len(b) == 0 {
+		return false
+	}
+	seen := map[*packState]bool{}
+	found := false
+	for i := 0; i < n; i++ {
+		s := packStatePool.Get().(*packState)
+		if &s.buf[0] == &b[:1][0] {
+			found = true
+		}
+		seen[s] = true
+	}
+	for s := range seen {
+		packStatePool.Put(s)
+	}
+	return found
+}
